@@ -248,10 +248,36 @@ class Executor:
     def _walk(self, path, p):
         c = path.heap[p.obj]
         idx = 0
+        t = None
         for step in p.path:
-            c = c[idx]
+            nxt = c[idx]
+            if not isinstance(nxt, list) and hasattr(nxt, "opaque_explode"):
+                # an access *into* an abstracted aggregate (e.g. p.x of an abstract Point): the abstract value is split
+                # into per-field component tokens; it is re-assembled when all components of one value meet again
+                t = self._type_at(p, nxt)
+                nxt = nxt.opaque_explode(self, t)
+                c[idx] = nxt
+            c = nxt
             idx = step
         return c, idx
+
+    def _type_at(self, p, leaf):
+        """static type of the first abstracted leaf on the access path of p"""
+        t = self.meta[p.obj].type
+        cur = None
+        c = None
+        for step in p.path:
+            if isinstance(t, tuple):
+                t = t[2]
+            elif t.k == "named" and t.name in self.opaque:
+                return t
+            elif t.u.k == "struct":
+                t = t.field_type(step)
+            elif t.u.k == "array":
+                t = self.prog.T(t.u.elem_id)
+            else:
+                raise ExecError("access path through %s" % t)
+        return t
 
     def load(self, path, p, ty=None):
         if p is None:
